@@ -382,6 +382,8 @@ class NumpyModel:
         return range(*[int(x.cval()) if isinstance(x, E) else int(x) for x in a])
 
     def b_len(self, node, x):
+        if isinstance(x, ClassVal) and x.kind in ("enum", "intenum"):
+            return len(x.members)
         if isinstance(x, np.ndarray):
             if x.ndim == 0:
                 raise _raise("TypeError", node, "len() of unsized object")
@@ -848,6 +850,8 @@ class NumpyModel:
         hi = kw.get("a_max", kw.get("max", hi))
         lo = None if lo is None else cell(lo)
         hi = None if hi is None else cell(hi)
+        if isinstance(a, EnumMember) and a.is_int:
+            a = a.value
         r = vec(_clip1, a, lo, hi)
         if out is not None:
             out[...] = r
